@@ -1,6 +1,7 @@
 package sdf
 
 import (
+	"math"
 	v2 "github.com/deadsy/sdfx/vec/v2"
 	v3 "github.com/deadsy/sdfx/vec/v3"
 	"github.com/deadsy/sdfx/vec/v2i"
@@ -153,4 +154,102 @@ func vc_C01_slice2d() {
 	}
 	vfAssume(n.Length2() >= 0.01)
 	vfCheckBox2(Slice2D(vfNewLeaf3("a", vfK1), vfPoint3("a0"), n), "Slice2D")
+}
+
+// rotate-union: boxes of the rotated operand-box vertices; step = rotation by an
+// arbitrary angle (unit pair). Case split on the signs of sin and cos makes
+// every containment linear.
+func vc_C01_rotateunion2d() {
+	vfTimeouts(3000, 15000)
+	num := 1 + vfCase("num", 3)
+	ang := vfBounded("angle")
+	c, s := mathCos(ang), mathSin(ang)
+	vfFork(c >= 0)
+	vfFork(s >= 0)
+	vfCheckBox2(RotateUnion2D(vfNewLeaf2("a", vfK1), num, Rotate2d(ang)), "RotateUnion2D")
+}
+
+func vc_C01_rotateunion3d() {
+	vfTimeouts(3000, 15000)
+	num := 1 + vfCase("num", 2)
+	ang := vfBounded("angle")
+	c, s := mathCos(ang), mathSin(ang)
+	vfFork(c >= 0)
+	vfFork(s >= 0)
+	vfCheckBox3(RotateUnion3D(vfNewLeaf3("a", vfK1), num, RotateZ(ang)), "RotateUnion3D")
+}
+
+func vc_C01_rotatex3d() {
+	vfTimeouts(3000, 15000)
+	vfCheckBox3(Transform3D(vfNewLeaf3("a", vfK1), RotateX(vfBounded("angle"))), "Transform3D(rotateX)")
+}
+
+func vc_C01_rotatey3d() {
+	vfTimeouts(3000, 15000)
+	vfCheckBox3(Transform3D(vfNewLeaf3("a", vfK1), RotateY(vfBounded("angle"))), "Transform3D(rotateY)")
+}
+
+// translated rotation (a composed matrix): the usual way shapes are placed
+func vc_C01_rotate_translate3d() {
+	vfTimeouts(3000, 15000)
+	m := Translate3d(vfPoint3("t")).Mul(RotateZ(vfBounded("angle")))
+	vfCheckBox3(Transform3D(vfNewLeaf3("a", vfK1), m), "Transform3D(translate*rotateZ)")
+}
+
+func vc_C01_scaletwistextrude3d() {
+	vfTimeouts(2000, 6000)
+	a := vfNewLeaf2("a", vfK1)
+	h := vfPosParam("h", 100)
+	sc := v2.Vec{X: vfPosParam("scale.x", 10), Y: vfPosParam("scale.y", 10)}
+	vfAssume(sc.X >= 0.1)
+	vfAssume(sc.Y >= 0.1)
+	s := ScaleTwistExtrude3D(a, h, vfBounded("twist"), sc)
+	vfCheckBox3(s, "ScaleTwistExtrude3D")
+}
+
+// screw: untapered, profile leaf; the box radius is the profile's max y
+func vc_C01_screw3d() {
+	vfTimeouts(3000, 15000)
+	prof := vfNewLeaf2("thread", vfK1)
+	pitch := vfPosParam("pitch", 10)
+	vfAssume(pitch >= 0.1)
+	st := [4]int{1, 2, -1, -2}[vfCase("starts", 4)]
+	s, err := Screw3D(prof, vfPosParam("length", 100), 0, pitch, st)
+	vfAssume(err == nil)
+	// polar query point (axiom T3 needs the polar form)
+	rho := vfPosParam("rho", 100)
+	vfAssume(rho >= 0.001)
+	alpha := vfReal("alpha")
+	vfAssume(vfAnd(alpha > -3.1, alpha <= 3.1))
+	z := vfBounded("z")
+	p := v3.Vec{X: rho * mathCos(alpha), Y: rho * mathSin(alpha), Z: z}
+	bb := s.BoundingBox()
+	d := s.Evaluate(p)
+	vfReach("Screw3D")
+	in := d < -vfTol(1e-6, 1e-7)
+	tol := vfTol(1e-5, 1e-7)
+	vfAssert(vfAnd(vfAnd(bb.Min.X <= bb.Max.X, bb.Min.Y <= bb.Max.Y), bb.Min.Z <= bb.Max.Z), "Screw3D: bounding box is ordered")
+	vfAssert(vfImplies(in, vfAnd(bb.Min.Z <= p.Z+tol, p.Z <= bb.Max.Z+tol)), "Screw3D: solid point within the z extent")
+	// radial containment: rho <= box radius (then |x|,|y| <= rho <= radius)
+	vfAssert(vfImplies(in, rho <= bb.Max.X+tol), "Screw3D: solid point within the box radius")
+	vfAssert(vfAnd(bb.Min.X == -bb.Max.X, vfAnd(bb.Min.Y == -bb.Max.X, bb.Max.Y == bb.Max.X)), "Screw3D: box is the square of that radius")
+}
+
+func mathCos(x float64) float64 { return math.Cos(x) }
+func mathSin(x float64) float64 { return math.Sin(x) }
+
+// partial revolve: theta symbolic inside one of four quadrant classes (the box
+// table switches at pi/2, pi, 3pi/2); sin/cos are a unit pair with the
+// quadrant sign facts (T1, T2).
+func vc_C01_revolvetheta3d() {
+	vfTimeouts(3000, 20000)
+	q := vfCase("quadrant", 4)
+	th := vfReal("theta")
+	lo, hi := float64(q)*math.Pi/2, float64(q+1)*math.Pi/2
+	vfAssume(th > lo+0.001)
+	vfAssume(th < hi-0.001)
+	prof := vfNewLeaf2("profile", vfK1)
+	s, err := RevolveTheta3D(prof, th)
+	vfAssume(err == nil)
+	vfCheckBox3(s, "RevolveTheta3D")
 }
